@@ -83,9 +83,11 @@ mod types;
 #[cfg(feature = "verif")]
 pub mod verif {
     pub use super::{
+        bucket::KBucketEntry,
         record::{Key as StoreKey, ProviderRecord},
+        routing_table::RoutingTable,
         store::{MemoryStore, MemoryStoreConfig},
-        types::Distance,
+        types::{ConnectionType, Distance, KademliaPeer, Key},
     };
     pub use super::{
         message::KademliaMessage,
